@@ -30,11 +30,13 @@ func (r Result) String() string {
 
 // Proc is one long-lived solver process speaking SMT-LIB2 on stdin/stdout.
 type Proc struct {
+	HardMs int    // hard limit per query: the process is killed when exceeded
 	Kind  string // z3 | z3-new | cvc5
 	cmd   *exec.Cmd
 	in    io.WriteCloser
 	out   *bufio.Reader
 	Log   io.Writer // optional transcript
+	wch   chan string
 	dead  bool
 	mu    sync.Mutex
 	Stats *Stats
@@ -83,17 +85,34 @@ func StartProc(kind string, timeoutMs int, stats *Stats) (*Proc, error) {
 	if err := cmd.Start(); err != nil {
 		return nil, err
 	}
-	p := &Proc{Kind: kind, cmd: cmd, in: in, out: bufio.NewReaderSize(out, 1<<20), Stats: stats}
+	p := &Proc{Kind: kind, cmd: cmd, in: in, out: bufio.NewReaderSize(out, 1<<20), Stats: stats, HardMs: 2*timeoutMs + 3000}
+	// stdin is fed by its own goroutine so that a solver blocked on a full stdout pipe can
+	// never deadlock against us writing a large query
+	p.wch = make(chan string, 1<<14)
+	go func() {
+		for s := range p.wch {
+			if _, err := io.WriteString(p.in, s); err != nil {
+				p.dead = true
+				for range p.wch {
+				}
+				return
+			}
+		}
+	}()
 	return p, nil
 }
+
+// Dead reports whether the process has been killed or has exited.
+func (p *Proc) Dead() bool { return p == nil || p.dead }
 
 func (p *Proc) Close() {
 	if p == nil || p.dead {
 		return
 	}
 	p.dead = true
-	p.in.Close()
+	close(p.wch)
 	p.cmd.Process.Kill()
+	p.in.Close()
 	p.cmd.Wait()
 }
 
@@ -101,7 +120,16 @@ func (p *Proc) send(s string) {
 	if p.Log != nil {
 		io.WriteString(p.Log, s)
 	}
-	io.WriteString(p.in, s)
+	if p.dead {
+		return
+	}
+	select {
+	case p.wch <- s:
+	default:
+		// queue full: the solver is not consuming input any more
+		p.dead = true
+		p.cmd.Process.Kill()
+	}
 }
 
 // readSexp reads one complete response: either a bare token line or a balanced s-expression.
@@ -289,10 +317,18 @@ func (s *Session) CheckModel(extra []*Term, eval []*Term) (Result, map[int]strin
 }
 
 func (s *Session) readVerdict() Result {
+	// hard limit: some solver versions ignore the soft timeout on non-linear problems
+	timer := time.AfterFunc(time.Duration(s.P.HardMs)*time.Millisecond, func() {
+		s.P.dead = true
+		s.P.cmd.Process.Kill()
+	})
+	defer timer.Stop()
 	for {
 		resp, err := s.P.readResponse()
 		if err != nil {
-			s.Errors = append(s.Errors, "solver died: "+err.Error()+" "+resp)
+			if !s.P.dead {
+				s.Errors = append(s.Errors, "solver died: "+err.Error()+" "+resp)
+			}
 			s.P.dead = true
 			return Unknown
 		}
